@@ -535,8 +535,7 @@ namespace link_layer {
                 transmit_buffer_.pop_end( transmit_buffer() );
 
                 // see free_received()
-                if ( transmit_buffer_.next_end().size == 0 )
-                    transmit_buffer_.reset( transmit_buffer() );
+                transmit_buffer_.rewind_if_empty( transmit_buffer() );
 
                 static_cast< Radio* >( this )->increment_transmit_packet_counter();
             }
@@ -566,8 +565,9 @@ namespace link_layer {
 
         // An empty ring that is split somewhere in the middle can not provide a buffer of the maximum PDU size,
         // if the ring is just large enough for one PDU. An empty ring can be rewound to its start.
-        if ( receive_buffer_.next_end().size == 0 )
-            receive_buffer_.reset( receive_buffer() );
+        // reset() must not be used here: it writes to the start of the buffer, which might already be allocated
+        // by the radio (or, for the transmit buffer, by the link layer)
+        receive_buffer_.rewind_if_empty( receive_buffer() );
     }
 
     template < std::size_t TransmitSize, std::size_t ReceiveSize, typename Radio >
